@@ -10,7 +10,7 @@ Open Scope N_scope.
 Fixpoint keys_fresh (seen : list val) (es : list (val * val)) : Prop :=
   match es with
   | [] => True
-  | e :: r => Forall (fun k => val_eqb (fst e) k = false) seen /\ keys_fresh (seen ++ [fst e]) r
+  | e :: r => Forall (fun k => kcmp (fst e) k = false) seen /\ keys_fresh (seen ++ [fst e]) r
   end.
 
 Fixpoint canon (c : codec) (v : val) {struct c} : Prop :=
@@ -113,12 +113,12 @@ Proof.
 Qed.
 
 (** ** maps: entries with fresh keys are appended *)
-Lemma map_lookup_fresh k : forall m, Forall (fun kk => val_eqb k kk = false) (map fst m) -> map_lookup k m = None.
+Lemma map_lookup_fresh k : forall m, Forall (fun kk => kcmp k kk = false) (map fst m) -> map_lookup k m = None.
 Proof.
   induction m as [|[k' x'] m IH]; intros H; cbn [map_lookup]; [reflexivity|].
   cbn [map fst] in H. inversion H as [|? ? Hk Hr]; subst. rewrite Hk. apply IH. exact Hr.
 Qed.
-Lemma map_set_fresh k x : forall m, Forall (fun kk => val_eqb k kk = false) (map fst m) -> map_set k x m = m ++ [(k, x)].
+Lemma map_set_fresh k x : forall m, Forall (fun kk => kcmp k kk = false) (map fst m) -> map_set k x m = m ++ [(k, x)].
 Proof.
   induction m as [|[k' x'] m IH]; intros H; cbn [map_set app]; [reflexivity|].
   cbn [map fst] in H. inversion H as [|? ? Hk Hr]; subst. rewrite Hk. f_equal. apply IH. exact Hr.
